@@ -25,7 +25,10 @@ RULE = ('two kinds of cases on ONE application. (ops) the application\'s Request
         'pre-emptions of two 2-thread scenarios (exhaustive, sharded over processes). non-trivial = at least two '
         'threads ran and at least one pre-emption (arr) / one interleaving point (ops) fell inside a request. '
         'distinct by the full case')
-TRUSTED = ['modelled, not verified: CPython threading.local, slot/property/__getattr__ resolution, dict order — tied by '
+TRUSTED = ['NOT in the model (oracle-level only): process-wide state of ombott outside the ts_props stores (class-level '
+           'errors_map responses, module-level tables); every arrangement and every solo baseline runs in its own '
+           'forked child of a process that has only imported ombott',
+           'modelled, not verified: CPython threading.local, slot/property/__getattr__ resolution, dict order — tied by '
            'the correspondence only',
            'NOT covered by the theorem (runtime remainder, C08 is claimed partial): the interpreter executes each op of '
            'the vocabulary as one indivisible step — the GIL, bytecode-level atomicity of getattr/setattr on '
